@@ -219,12 +219,14 @@ def in_attrs(opts, form='name', seqname='seq', batch=None):
         a.append('prefix=%s' % opts['prefix'])
     s = opts.get('sort')
     if s == 'x':
-        a.append('sort=x')
+        a.append('sort_expr="\'x\'"' if opts.get('sort_via') == 'expr' else 'sort=x')
     elif s == 'item':
         a.append('sort=sequence-item')
     elif s == 'key':
         a.append('sort')
-    if opts.get('reverse'):
+    if opts.get('reverse_via') == 'expr':       # computed: may also say "do not reverse"
+        a.append('reverse_expr="1==1"' if opts.get('reverse') else 'reverse_expr="1==0"')
+    elif opts.get('reverse'):
         a.append('reverse')
     for k in ('start', 'size', 'end'):
         if batch and batch.get(k) is not None:
@@ -251,8 +253,10 @@ def opts_code(opts):
         'M' if opts.get('mapping') else '-',
         'N' if opts.get('no_push_item') else '-',
         'P' if opts.get('prefix') else '-',
-        {'x': 'X', 'item': 'I', 'key': 'K'}.get(opts.get('sort'), '-'),
-        'R' if opts.get('reverse') else '-'])
+        {'x': 'E' if opts.get('sort_via') == 'expr' else 'X', 'item': 'I',
+         'key': 'K'}.get(opts.get('sort'), '-'),
+        ('T' if opts.get('reverse') else 'F') if opts.get('reverse_via') == 'expr'
+        else ('R' if opts.get('reverse') else '-')])
 
 
 # ------------------------------------------------------------------ the model
@@ -266,6 +270,36 @@ def window_of(n, batch):
     if e is None:
         return s, min(s + k - 1, n)             # start + size, 1 <= start <= n
     return s, e                                 # start + end, 1 <= start <= end <= n
+
+
+NESTED_FIELDS = ['sequence-index', 'sequence-number', 'sequence-start', 'sequence-end',
+                 'sequence-item', 'sequence-length', 'sequence-even']
+NESTED_ALIAS = ('index', 'number', 'start', 'end', 'item', 'length')
+
+
+def nested_source(case):
+    """-> (source, outer elements, global inner elements) of a nested case"""
+    kids = case['kids']                 # inner length per outer element
+    op, ip = case.get('oprefix'), case.get('iprefix')
+    outer = []
+    for a, m in enumerate(kids):
+        ks = [Obj('k%d_%d' % (a, b), iid='i%d_%d' % (a, b)) for b in range(m)]
+        outer.append(Obj('o%d' % a, oid='oid%d' % a, kids=ks))
+    glob = [Obj('g%d' % b, iid='gi%d' % b) for b in range(case.get('gkids', 0))]
+    ofields = NESTED_FIELDS
+    oalias = ['%s_%s' % (op, nm) for nm in NESTED_ALIAS] if op else []
+    ialias = ['%s_%s' % (ip, nm) for nm in NESTED_ALIAS] if ip else []
+
+    def rec(tag, names):
+        return tag + F + F.join(var(nm, True) for nm in names) + R
+    iname = 'kids' if case.get('inner', 'attr') == 'attr' else 'gk'
+    src = ('B' + G + '<dtml-in ' + in_attrs({'prefix': op}, 'name', 'outer') + '>' +
+           rec('O1', ofields + oalias) +
+           '<dtml-in ' + in_attrs({'prefix': ip}, 'name', iname) + '>' +
+           rec('I', ofields + ialias + oalias + ['oid', 'iid']) +
+           '</dtml-in>' + rec('O2', ofields + oalias) + '</dtml-in>' + G + 'A' +
+           F.join(var(nm, True) for nm in ofields + oalias + ialias + ['oid', 'iid']))
+    return src, outer, glob
 
 
 class Tally:
@@ -520,28 +554,10 @@ class Harness:
     # -------------------------------------------------------------- nested
     def evaluate_nested(self, case, classify=None):
         ctx, T = self.ctx, self.tally
-        kids = case['kids']                 # inner length per outer element
+        kids = case['kids']
         op, ip = case.get('oprefix'), case.get('iprefix')
         inner_src = case.get('inner', 'attr')
-        outer = []
-        for a, m in enumerate(kids):
-            ks = [Obj('k%d_%d' % (a, b), iid='i%d_%d' % (a, b)) for b in range(m)]
-            outer.append(Obj('o%d' % a, oid='oid%d' % a, kids=ks))
-        glob = [Obj('g%d' % b, iid='gi%d' % b) for b in range(case.get('gkids', 0))]
-        ofields = ['sequence-index', 'sequence-number', 'sequence-start', 'sequence-end',
-                   'sequence-item', 'sequence-length', 'sequence-even']
-        oalias = ['%s_%s' % (op, nm) for nm in ('index', 'number', 'start', 'end', 'item', 'length')] if op else []
-        ialias = ['%s_%s' % (ip, nm) for nm in ('index', 'number', 'start', 'end', 'item', 'length')] if ip else []
-
-        def rec(tag, names):
-            return tag + F + F.join(var(nm, True) for nm in names) + R
-        iname = 'kids' if inner_src == 'attr' else 'gk'
-        src = ('B' + G + '<dtml-in ' + in_attrs({'prefix': op}, 'name', 'outer') + '>' +
-               rec('O1', ofields + oalias) +
-               '<dtml-in ' + in_attrs({'prefix': ip}, 'name', iname) + '>' +
-               rec('I', ofields + ialias + oalias + ['oid', 'iid']) +
-               '</dtml-in>' + rec('O2', ofields + oalias) + '</dtml-in>' + G + 'A' +
-               F.join(var(nm, True) for nm in ofields + oalias + ialias + ['oid', 'iid']))
+        src, outer, glob = nested_source(case)
         ctx.case(('nested', tuple(kids), op, ip, inner_src, case.get('gkids', 0),
                   case.get('container', 'list')), len(kids) >= 1)
         T.c('nested cases')
